@@ -50,6 +50,9 @@ def stepHeaders (op : String) (args : List String) : Option String :=
   | "pfr", [x] => do
     let b ← unhex x
     pure (showRes (fun _ => "ok") (natsServerProcessFrame b))
+  | "htp", [x] => do
+    let b ← unhex x
+    pure (showRes (fun st => s!"status={st}") (httpHandle b))
   | "nsw", [ms] => do
     let msgs ← if ms == "." then some [] else (ms.splitOn ",").mapM unhex
     -- the harness appends one well-formed message after the sequence
